@@ -31,8 +31,11 @@ class LoopModel:
                 # type of the scrutinee: look at the defining statement
                 for s in b.blocks[bb]["stmts"]:
                     if s["k"] == "assign" and s["rv"]["k"] == "discr" and "commands::Command" in s["rv"].get("of", ""):
-                        self.switch_bb = bb
-                        self.cmd_place = s["rv"]["place"]
+                        # the dispatching match is the one that tells the most commands apart (a partial re-test of the
+                        # discriminant elsewhere, e.g. in an inlined helper or a drop ladder, is not the dispatcher)
+                        if self.switch_bb is None or len(t["vals"]) > len(b.term(self.switch_bb)["vals"]):
+                            self.switch_bb = bb
+                            self.cmd_place = s["rv"]["place"]
         if self.switch_bb is None:
             raise AnchorMissing("command loop: no switch on a commands::Command discriminant in %s" % b.path)
         adt = None
